@@ -1,10 +1,316 @@
 import CueVerif.Driver.Proto
-namespace CueVerif.Driver.C13
-open CueVerif CueVerif.Driver
+import CueVerif.Spec.JsonSchema
+import CueVerif.Model.JsonSchemaSkel
+/-!
+Driver for C13.  Ops:
 
-/-- protocol handler for C13: words of one op line (after the property id) → answer -/
+* `valid <schema-json-hex> <instance-json-hex>` → `true` | `false` | `undetermined` |
+  `bad-schema:<why>` | `bad-json` — the ORACLE's verdict `JS.valid tinyRe root fuel root j`.
+* `agree <schema1-hex> <schema2-hex> <instance-hex>` → `same` | `differ:<v1>/<v2>` | … — the
+  reverse direction: both schemas judged by the oracle on the same instance.
+* `skel <allowed> <known> <presence> <nAll>` → the kind skeleton `Skel.finalize` assembles (internal
+  correspondence with `state.finalize`).
+
+Contains a small total JSON parser (RFC 8259; numbers as exact decimals) and the
+JSON → `JS.Schema` reader.  Core Lean only.
+-/
+namespace CueVerif.Driver.C13
+open CueVerif CueVerif.Driver CueVerif.JS
+
+/-! ### JSON parser -/
+
+def isWs (c : Char) : Bool := c == ' ' || c == '\n' || c == '\t' || c == '\r'
+
+def skipWs : List Char → List Char
+  | c :: r => if isWs c then skipWs r else c :: r
+  | [] => []
+
+def takeDigits : List Char → List Char → List Char × List Char
+  | c :: r, acc => if c.isDigit then takeDigits r (c :: acc) else (acc.reverse, c :: r)
+  | [], acc => (acc.reverse, [])
+
+def digitsVal (ds : List Char) : Nat := ds.foldl (fun a c => a * 10 + (c.toNat - 48)) 0
+
+/-- `-?int(.frac)?([eE][+-]?digits)?` → exact rational -/
+def parseNumber (cs : List Char) : Option (Num × List Char) :=
+  let (neg, cs) := match cs with | '-' :: r => (true, r) | _ => (false, cs)
+  let (ip, cs) := takeDigits cs []
+  if ip.isEmpty then none else
+  if ip.length > 1 && ip.head? == some '0' then none else
+  let (fp, cs, okf) := match cs with
+    | '.' :: r => let (f, r') := takeDigits r []; (f, r', !f.isEmpty)
+    | _ => ([], cs, true)
+  if !okf then none else
+  let (ex, cs, oke) : Int × List Char × Bool := match cs with
+    | c :: r =>
+      if c == 'e' || c == 'E' then
+        let (sgn, r) := match r with | '+' :: r' => (false, r') | '-' :: r' => (true, r') | _ => (false, r)
+        let (e, r') := takeDigits r []
+        ((if sgn then - (digitsVal e : Int) else (digitsVal e : Int)), r', !e.isEmpty)
+      else (0, cs, true)
+    | [] => (0, cs, true)
+  if !oke then none else
+  let mant : Int := (digitsVal (ip ++ fp) : Int)
+  let mant := if neg then -mant else mant
+  let e10 : Int := ex - (fp.length : Int)
+  let n : Num := if e10 ≥ 0 then ⟨mant * (10 : Int) ^ e10.toNat, 1⟩ else ⟨mant, 10 ^ (-e10).toNat⟩
+  some (n, cs)
+
+def hex4 : List Char → Option (Nat × List Char)
+  | a :: b :: c :: d :: r =>
+    match hexVal a, hexVal b, hexVal c, hexVal d with
+    | some w, some x, some y, some z => some (((w * 16 + x) * 16 + y) * 16 + z, r)
+    | _, _, _, _ => none
+  | _ => none
+
+/-- after the opening quote; total by recursion on fuel = remaining length -/
+def parseStringBody : Nat → List Char → List Char → Option (String × List Char)
+  | 0, _, _ => none
+  | _ + 1, '"' :: r, acc => some (String.ofList acc.reverse, r)
+  | n + 1, '\\' :: e :: r, acc =>
+    if e == 'u' then
+      match hex4 r with
+      | some (u, r') =>
+        if 0xD800 ≤ u && u < 0xDC00 then
+          match r' with
+          | '\\' :: 'u' :: r'' =>
+            match hex4 r'' with
+            | some (l, r3) =>
+              if 0xDC00 ≤ l && l < 0xE000 then
+                parseStringBody n r3 (Char.ofNat (0x10000 + (u - 0xD800) * 0x400 + (l - 0xDC00)) :: acc)
+              else none
+            | none => none
+          | _ => none
+        else if 0xDC00 ≤ u && u < 0xE000 then none
+        else parseStringBody n r' (Char.ofNat u :: acc)
+      | none => none
+    else
+      let c? : Option Char :=
+        if e == '"' then some '"' else if e == '\\' then some '\\' else if e == '/' then some '/'
+        else if e == 'b' then some (Char.ofNat 8) else if e == 'f' then some (Char.ofNat 12)
+        else if e == 'n' then some '\n' else if e == 'r' then some '\r' else if e == 't' then some '\t'
+        else none
+      match c? with
+      | some c => parseStringBody n r (c :: acc)
+      | none => none
+  | n + 1, c :: r, acc => if c.toNat < 0x20 then none else parseStringBody n r (c :: acc)
+  | _ + 1, [], _ => none
+
+def dropPrefix (p : List Char) (cs : List Char) : Option (List Char) :=
+  if p.isPrefixOf cs then some (cs.drop p.length) else none
+
+mutual
+def parseValue : Nat → List Char → Option (Json × List Char)
+  | 0, _ => none
+  | n + 1, cs =>
+    match skipWs cs with
+    | 'n' :: r => (dropPrefix "ull".toList r).map fun r => (Json.null, r)
+    | 't' :: r => (dropPrefix "rue".toList r).map fun r => (Json.bool true, r)
+    | 'f' :: r => (dropPrefix "alse".toList r).map fun r => (Json.bool false, r)
+    | '"' :: r => (parseStringBody (r.length + 1) r []).map fun (s, r) => (Json.str s, r)
+    | '[' :: r =>
+      match skipWs r with
+      | ']' :: r' => some (Json.arr [], r')
+      | r' => (parseElems n r' []).map fun (xs, r) => (Json.arr xs, r)
+    | '{' :: r =>
+      match skipWs r with
+      | '}' :: r' => some (Json.obj [], r')
+      | r' => (parseMembers n r' []).map fun (kvs, r) => (Json.obj kvs, r)
+    | cs' => (parseNumber cs').map fun (x, r) => (Json.num x, r)
+def parseElems : Nat → List Char → List Json → Option (List Json × List Char)
+  | 0, _, _ => none
+  | n + 1, cs, acc =>
+    match parseValue n cs with
+    | none => none
+    | some (v, r) =>
+      match skipWs r with
+      | ',' :: r' => parseElems n r' (v :: acc)
+      | ']' :: r' => some ((v :: acc).reverse, r')
+      | _ => none
+def parseMembers : Nat → List Char → List (String × Json) → Option (List (String × Json) × List Char)
+  | 0, _, _ => none
+  | n + 1, cs, acc =>
+    match skipWs cs with
+    | '"' :: r =>
+      match parseStringBody (r.length + 1) r [] with
+      | none => none
+      | some (k, r) =>
+        match skipWs r with
+        | ':' :: r' =>
+          match parseValue n r' with
+          | none => none
+          | some (v, r) =>
+            match skipWs r with
+            | ',' :: r' => parseMembers n r' ((k, v) :: acc)
+            | '}' :: r' => some (((k, v) :: acc).reverse, r')
+            | _ => none
+        | _ => none
+    | _ => none
+end
+
+def parseJson (s : String) : Option Json :=
+  let cs := s.toList
+  match parseValue (cs.length + 2) cs with
+  | some (v, r) => if (skipWs r).isEmpty then some v else none
+  | none => none
+
+def bytesToString (bs : List Nat) : Option String :=
+  String.fromUTF8? (ByteArray.mk (bs.map UInt8.ofNat).toArray)
+
+def parseHexJson (h : String) : Option Json := do
+  let bs ← unhex h
+  let s ← bytesToString bs
+  parseJson s
+
+/-! ### JSON → Schema -/
+
+def typeNameOf : Json → Except String TypeName
+  | .str "null" => .ok .null | .str "boolean" => .ok .boolean | .str "number" => .ok .number
+  | .str "integer" => .ok .integer | .str "string" => .ok .string | .str "array" => .ok .array
+  | .str "object" => .ok .object
+  | _ => .error "type-name"
+
+def natOf : Json → Except String Nat
+  | .num n => if n.isInt && n.num ≥ 0 then .ok (n.num / (n.den : Int)).toNat else .error "not-a-natural"
+  | _ => .error "not-a-number"
+
+def numOf : Json → Except String Num
+  | .num n => .ok n
+  | _ => .error "not-a-number"
+
+def strOf : Json → Except String String
+  | .str s => .ok s
+  | _ => .error "not-a-string"
+
+def refOf (s : String) : Except String Ref :=
+  if s == "#" then .ok .root
+  else if s.startsWith "#/$defs/" then
+    let name := (s.drop 8).toString
+    if name.toList.any (fun c => c == '/' || c == '~' || c == '%') then .error "unsupported-ref" else .ok (.defn name)
+  else .error "unsupported-ref"
+
+def annotations : List String :=
+  ["$schema", "title", "description", "$comment", "default", "examples", "deprecated"]
+
+mutual
+def toSchema : Nat → Json → Except String Schema
+  | 0, _ => .error "too-deep"
+  | _ + 1, .bool b => .ok (.bool b)
+  | n + 1, .obj kvs => do
+    let kws ← toKws n kvs
+    .ok (.obj kws)
+  | _ + 1, _ => .error "schema-not-object-or-bool"
+def toSchemas : Nat → List Json → Except String (List Schema)
+  | 0, _ => .error "too-deep"
+  | _ + 1, [] => .ok []
+  | n + 1, j :: r => do
+    let s ← toSchema n j
+    let ss ← toSchemas n r
+    .ok (s :: ss)
+def toNamed : Nat → Bool → List (String × Json) → Except String (List (String × Schema))
+  | 0, _, _ => .error "too-deep"
+  | _ + 1, _, [] => .ok []
+  | n + 1, isPat, (k, j) :: r => do
+    if isPat && !tinyReKnown k then .error "unsupported-pattern" else
+    let s ← toSchema n j
+    let ss ← toNamed n isPat r
+    .ok ((k, s) :: ss)
+def toKws : Nat → List (String × Json) → Except String (List Kw)
+  | 0, _ => .error "too-deep"
+  | _ + 1, [] => .ok []
+  | n + 1, (k, v) :: r => do
+    let kw ← toKw n k v
+    let kws ← toKws n r
+    .ok (kw :: kws)
+def toKw : Nat → String → Json → Except String Kw
+  | 0, _, _ => .error "too-deep"
+  | n + 1, k, v =>
+    if k == "type" then
+      match v with
+      | .arr ts => do let l ← ts.mapM typeNameOf; .ok (.type l)
+      | t => do let x ← typeNameOf t; .ok (.type [x])
+    else if k == "enum" then (match v with | .arr vs => .ok (.enum vs) | _ => .error "enum-not-array")
+    else if k == "const" then .ok (.const v)
+    else if k == "minimum" then do let x ← numOf v; .ok (.minimum x)
+    else if k == "maximum" then do let x ← numOf v; .ok (.maximum x)
+    else if k == "exclusiveMinimum" then do let x ← numOf v; .ok (.exclusiveMinimum x)
+    else if k == "exclusiveMaximum" then do let x ← numOf v; .ok (.exclusiveMaximum x)
+    else if k == "multipleOf" then do
+      let x ← numOf v
+      if x.num ≤ 0 then .error "multipleOf-not-positive" else .ok (.multipleOf x)
+    else if k == "minLength" then do let x ← natOf v; .ok (.minLength x)
+    else if k == "maxLength" then do let x ← natOf v; .ok (.maxLength x)
+    else if k == "pattern" then do
+      let p ← strOf v
+      if tinyReKnown p then .ok (.pattern p) else .error "unsupported-pattern"
+    else if k == "properties" then
+      (match v with | .obj m => do let l ← toNamed n false m; .ok (.properties l) | _ => .error "properties-not-object")
+    else if k == "patternProperties" then
+      (match v with | .obj m => do let l ← toNamed n true m; .ok (.patternProperties l) | _ => .error "patternProperties-not-object")
+    else if k == "$defs" then
+      (match v with | .obj m => do let l ← toNamed n false m; .ok (.defs l) | _ => .error "defs-not-object")
+    else if k == "additionalProperties" then do let s ← toSchema n v; .ok (.additionalProperties s)
+    else if k == "propertyNames" then do let s ← toSchema n v; .ok (.propertyNames s)
+    else if k == "required" then
+      (match v with | .arr ks => do let l ← ks.mapM strOf; .ok (.required l) | _ => .error "required-not-array")
+    else if k == "minProperties" then do let x ← natOf v; .ok (.minProperties x)
+    else if k == "maxProperties" then do let x ← natOf v; .ok (.maxProperties x)
+    else if k == "items" then do let s ← toSchema n v; .ok (.items s)
+    else if k == "prefixItems" then
+      (match v with | .arr l => do let ss ← toSchemas n l; .ok (.prefixItems ss) | _ => .error "prefixItems-not-array")
+    else if k == "minItems" then do let x ← natOf v; .ok (.minItems x)
+    else if k == "maxItems" then do let x ← natOf v; .ok (.maxItems x)
+    else if k == "uniqueItems" then (match v with | .bool b => .ok (.uniqueItems b) | _ => .error "uniqueItems-not-bool")
+    else if k == "contains" then do let s ← toSchema n v; .ok (.contains s)
+    else if k == "minContains" then do let x ← natOf v; .ok (.minContains x)
+    else if k == "maxContains" then do let x ← natOf v; .ok (.maxContains x)
+    else if k == "allOf" then
+      (match v with | .arr (a :: l) => do let ss ← toSchemas n (a :: l); .ok (.allOf ss) | _ => .error "allOf-not-nonempty-array")
+    else if k == "anyOf" then
+      (match v with | .arr (a :: l) => do let ss ← toSchemas n (a :: l); .ok (.anyOf ss) | _ => .error "anyOf-not-nonempty-array")
+    else if k == "oneOf" then
+      (match v with | .arr (a :: l) => do let ss ← toSchemas n (a :: l); .ok (.oneOf ss) | _ => .error "oneOf-not-nonempty-array")
+    else if k == "not" then do let s ← toSchema n v; .ok (.not s)
+    else if k == "if" then do let s ← toSchema n v; .ok (.ifS s)
+    else if k == "then" then do let s ← toSchema n v; .ok (.thenS s)
+    else if k == "else" then do let s ← toSchema n v; .ok (.elseS s)
+    else if k == "$ref" then do let p ← strOf v; let r ← refOf p; .ok (.ref r)
+    else if annotations.contains k then .ok (.annot k)
+    else .error ("unsupported-keyword:" ++ k)
+end
+
+/-- fuel for the oracle: ample for the generators (schema depth ≤ 4 incl. `$defs`, instance
+depth ≤ 5, each reference unfolding guarded by an instance descent) -/
+def oracleFuel : Nat := 200
+
+def verdictStr : Option Bool → String
+  | some true => "true" | some false => "false" | none => "undetermined"
+
+def readSchema (h : String) : Except String Schema :=
+  match parseHexJson h with
+  | none => .error "bad-json"
+  | some j => toSchema 1000000 j
+
 def handle (ws : List String) : String :=
   match ws with
+  | ["valid", sh, ih] =>
+    match readSchema sh, parseHexJson ih with
+    | .ok s, some j => verdictStr (valid tinyRe s oracleFuel s j)
+    | .error e, _ => "bad-schema:" ++ e
+    | _, none => "bad-json"
+  | ["agree", s1, s2, ih] =>
+    match readSchema s1, readSchema s2, parseHexJson ih with
+    | .ok a, .ok b, some j =>
+      let va := valid tinyRe a oracleFuel a j
+      let vb := valid tinyRe b oracleFuel b j
+      if va == vb then "same" else "differ:" ++ verdictStr va ++ "/" ++ verdictStr vb
+    | .error e, _, _ => "bad-schema:" ++ e
+    | _, .error e, _ => "bad-generated-schema:" ++ e
+    | _, _, none => "bad-json"
+  | ["skel", a, k, p, n] =>
+    match a.toNat?, k.toNat?, p.toNat?, n.toNat? with
+    | some a, some k, some p, some n => Skel.finalizeShapeStr a k p n
+    | _, _, _, _ => "bad-op"
   | _ => "bad-op"
 
 end CueVerif.Driver.C13
